@@ -25,7 +25,26 @@ PROP = {
 }
 
 LABELLED = {"data3D": "tracks", "emg": "signals", "force3D": "tracks", "platCal": "plats", "events": "events", "optical": "channels"}
-BAD_TEXT = {"too-long": "L" * 300, "not-cp1252": "cafć"}
+BAD_TEXT = {"too-long": "L" * 300, "too-long-by-one": None, "not-cp1252": "cafć"}   # None: exactly the field width
+
+
+def bad_text(kind, width):
+    return "L" * width if BAD_TEXT[kind] is None else BAD_TEXT[kind]
+
+
+def bad_date_block(name, which):
+    """a block whose creation / modification date does not fit the 32-bit second field"""
+    from datetime import datetime
+
+    blk = specs.build(container_min(name))
+    setattr(blk, which, datetime(2040, 1, 1))
+    return blk
+
+
+def no_format_block(name):
+    blk = specs.build(container_min(name))
+    blk.format = None
+    return blk
 
 
 def labelled_spec(t, n_items, frames=2):
@@ -171,7 +190,8 @@ class Interp(container.ContainerInterp):
         # 3. unencodable text in a label, by position
         for name in LABELLED:
             present = reftdf.TYPE_CODE[name] in live_codes
-            for kind, text in BAD_TEXT.items():
+            for kind in BAD_TEXT:
+                text = bad_text(kind, 32 if name == "optical" else 256)
                 for pos, n, idx in (("first", 3, 0), ("middle", 3, 1), ("last", 3, 2), ("only", 1, 0)):
                     spec = labelled_spec(name, n)
                     key = "name" if name == "optical" else "label"
@@ -186,7 +206,8 @@ class Interp(container.ContainerInterp):
                         if name in container.SETTERS:
                             self.refused(cause, "setter", lambda: setattr(t, container.SETTERS[name], specs.build(spec)))
         # 4. unencodable comment
-        for kind, text in BAD_TEXT.items():
+        for kind in BAD_TEXT:
+            text = bad_text(kind, 256)
             for name in (absent[:2] if free and self.hole is None else []):
                 blk = specs.build(container_min(name))
                 self.refused(f"comment-{kind}", "add_block", lambda: t.add_block(blk, text))
@@ -204,6 +225,18 @@ class Interp(container.ContainerInterp):
                 self.refused("unsupported-format", "add_block", lambda: t.add_block(bad_format_block(name)))
                 if name in container.SETTERS:
                     self.refused("unsupported-format", "setter", lambda: setattr(t, container.SETTERS[name], bad_format_block(name)))
+        # 5b. a block whose own metadata cannot be encoded into the table entry
+        for cause, make in (("date-out-of-range-creation", lambda n: bad_date_block(n, "creation_date")),
+                            ("date-out-of-range-modification", lambda n: bad_date_block(n, "last_modification_date")),
+                            ("format-none", no_format_block)):
+            for name in live_writable[:3]:
+                self.refused(cause, "replace_block", lambda: t.replace_block(make(name)))
+                if name in container.SETTERS:
+                    self.refused(cause, "setter", lambda: setattr(t, container.SETTERS[name], make(name)))
+            for name in (absent[:2] if free and self.hole is None else []):
+                self.refused(cause, "add_block", lambda: t.add_block(make(name)))
+                if name in container.SETTERS:
+                    self.refused(cause, "setter", lambda: setattr(t, container.SETTERS[name], make(name)))
         # 6. wrong object
         for kind, obj in wrong_objects().items():
             self.refused(f"wrong-object-{kind}", "add_block", lambda: t.add_block(obj))
